@@ -39,6 +39,9 @@ type H struct{}
 
 func (H) Name() string { return "ctree" }
 
+// RaceProperty: race freedom of the tree is C10's clause.
+func (H) RaceProperty(prop string) string { return "C10" }
+
 func (H) Decode(b []byte) (any, error) {
 	s := &Scenario{}
 	return s, json.Unmarshal(b, s)
